@@ -131,9 +131,10 @@ CLAIMED = {
                 "validate = the documented consistency rules for every setting (C11_validate_iff), defaults, Header accepted iff integer >= 0, Sheet iff >= 1; "
                 "C11_spellings proves for every code point and each of the spellings decimal, 0x/0X hexadecimal, quoted character and symbolic name that "
                 "_validated_character (strip, generated_tokens with its INDENT handling, the tokenizer fragment, int(text, 0), code_for_string_token, chr) "
-                "returns exactly that character, C11_spelling_literal the same for the literal spelling. Correspondence: 14 spelling kinds x ~110 code "
+                "returns exactly that character, C11_spelling_literal the same for the literal spelling, C11_escaped_hex for the quoted escape '\\xHH' over all 256 "
+                "codes (kernel evaluation of the whole table). Correspondence: 14 spelling kinds x ~110 code "
                 "points rendered by the Lean spec and fed to the real set_property, all value sets over printable ASCII, applicability matrix, consistency "
-                "product, encodings vs codecs.lookup.",
+                "product, encodings vs the documented rule (a codec usable for text).",
         "note": "Trusted: Lean kernel; DataFormat model faithfulness (exhaustive correspondence); the codec registry is a parameter; the backslash-escape "
                 "spellings inside quotes ('\\x..', '\\u....') are established by exhaustive correspondence over the pool only.",
         "technique": "Lean 4 proof (finite tables by decide, consistency by case analysis, spellings through the lexer model) + exhaustive differential correspondence",
